@@ -1,49 +1,163 @@
 package main
 
+// Path exploration: depth-first by re-execution. A path is a list of decision events; the next path re-runs the
+// harness from the start following the longest unexplored prefix. Work is shared between workers by decision prefix.
+
 import (
 	"fmt"
-	"math/big"
+	"math/rand"
 	"sort"
 	"strings"
+	"sync"
+	"time"
 
 	"golang.org/x/tools/go/ssa"
 )
 
 type Event struct {
-	kind   int // 0 branch (2-way), 1 assume/forced, 2 k-way concretisation
-	choice int
-	alts   []int // feasible alternatives (for kind 0: subset of {0,1}; kind 2: concrete values)
+	Kind   int     // 0 two-way branch, 1 forced (assume), 2 k-way concretisation
+	Choice int     // index into Alts
+	Alts   []int64 // kind 0: 0 = condition true, 1 = condition false; kind 2: concrete values
+}
+
+type TapeEntry struct {
+	W   int    `json:"w"`
+	Val string `json:"v"` // decimal
 }
 
 type Violation struct {
-	kind  string // assert | panic | unwind | alloc
-	where string
-	msg   string
-	model map[string]*big.Int
-	tape  []string
+	Harness string
+	Kind    string // assert | panic | unwind | alloc | unsupported
+	Where   string
+	Msg     string
+	Func    string // innermost function of the code under test (for panics)
+	Tape    []TapeEntry
+	KF      []string // known-finding regions the path is in
+	Obs     []string
+	// filled by replay
+	Reproduced bool
+	NativeOut  string
+	ReplayDir  string
+}
+
+func (v Violation) key() string {
+	return v.Kind + "|" + v.Where + "|" + v.Msg + "|" + strings.Join(v.KF, ",")
+}
+
+type Sample struct {
+	Tape   []TapeEntry
+	Obs    []string // expected observation log
+	Events int
+}
+
+type Shared struct {
+	mu       sync.Mutex
+	cond     *sync.Cond
+	queue    [][]Event
+	idle     int
+	nworkers int
+	done     bool
+
+	violations []Violation
+	seen       map[string]bool
+	covered    map[string]int
+	samples    []Sample
+	sampleN    int
+	maxSamples int
+	rng        *rand.Rand
+	kfSeen     map[string]int // known-finding region -> feasible paths entering it
+
+	Paths, Pruned, Unknown, Decisions, Steps int
+	Inconclusive                             int
+	funcs                                    map[string]int
+	unsupported                              map[string]int
+	assumptions                              map[string]int
+	deadline                                 time.Time
+	timedOut                                 bool
+	maxViol                                  int
+	maxLenSeen                               map[string]int
+}
+
+func NewShared(nw int, seed int64, deadline time.Time) *Shared {
+	sh := &Shared{nworkers: nw, seen: map[string]bool{}, covered: map[string]int{}, funcs: map[string]int{}, unsupported: map[string]int{},
+		maxSamples: 8, rng: rand.New(rand.NewSource(seed)), deadline: deadline, maxViol: 12, kfSeen: map[string]int{}, assumptions: map[string]int{}}
+	sh.cond = sync.NewCond(&sh.mu)
+	sh.queue = [][]Event{nil}
+	return sh
+}
+
+func (sh *Shared) get() ([]Event, bool) {
+	sh.mu.Lock()
+	defer sh.mu.Unlock()
+	for len(sh.queue) == 0 {
+		if sh.done {
+			return nil, false
+		}
+		sh.idle++
+		if sh.idle == sh.nworkers {
+			sh.done = true
+			sh.cond.Broadcast()
+			return nil, false
+		}
+		sh.cond.Wait()
+		sh.idle--
+		if sh.done {
+			return nil, false
+		}
+	}
+	it := sh.queue[len(sh.queue)-1]
+	sh.queue = sh.queue[:len(sh.queue)-1]
+	return it, true
+}
+
+func (sh *Shared) hungry() bool {
+	sh.mu.Lock()
+	defer sh.mu.Unlock()
+	return sh.idle > 0 && len(sh.queue) < sh.idle
+}
+
+func (sh *Shared) put(items [][]Event) {
+	sh.mu.Lock()
+	sh.queue = append(sh.queue, items...)
+	sh.cond.Broadcast()
+	sh.mu.Unlock()
+}
+
+func (sh *Shared) stop() {
+	sh.mu.Lock()
+	sh.done = true
+	sh.queue = nil
+	sh.cond.Broadcast()
+	sh.mu.Unlock()
 }
 
 type Explorer struct {
 	e      *Engine
 	s      *Solver
 	b      *TermBank
+	sh     *Shared
+	name   string
 	prefix []Event
+	base   int
 	events []Event
 	synced int
 	nondet []*Term
-	model  map[string]*big.Int
-	cache  map[int]*big.Int
+	model  *Model
+	cache  map[int]evalVal
+	kf     []string
+	obs    []obsEntry
+	labels []string
 
-	Paths, Pruned, Unknown int
-	Violations            []Violation
-	covered               map[string]int
-	seenViol              map[string]bool
-	stopAtFirst           bool
-	asserts               int
+	asserts int
+}
+
+type obsEntry struct {
+	label string
+	t     *Term
 }
 
 func (x *Explorer) pushAssert(c *Term) {
-	if x.model != nil && x.b.Eval(c, x.model, x.cache).Sign() == 0 {
+	if x.model != nil && x.b.Eval(c, x.model, x.cache).u == 0 {
 		x.model = nil // stale: no longer a model of the path condition
 	}
 	i := len(x.events)
@@ -57,7 +171,7 @@ func (x *Explorer) pushAssert(c *Term) {
 // feasible checks pc ∧ c
 func (x *Explorer) feasible(c *Term) string {
 	if x.model != nil {
-		if x.b.Eval(c, x.model, x.cache).Sign() != 0 {
+		if x.b.Eval(c, x.model, x.cache).u != 0 {
 			return "sat"
 		}
 	}
@@ -66,81 +180,95 @@ func (x *Explorer) feasible(c *Term) string {
 	r := x.s.Check()
 	if r == "sat" {
 		x.model = x.s.Model(x.nondet)
-		x.cache = map[int]*big.Int{}
+		x.cache = map[int]evalVal{}
 	}
 	x.s.Pop(1)
 	if r == "unknown" {
-		x.Unknown++
+		x.sh.mu.Lock()
+		x.sh.Unknown++
+		x.sh.mu.Unlock()
 	}
 	return r
 }
 
 func (x *Explorer) replaying() bool { return len(x.events) < len(x.prefix) }
 
-func (x *Explorer) branch(c *Term, fn *ssa.Function, ins ssa.Instruction) bool {
+func (x *Explorer) branch(c *Term) bool {
 	i := len(x.events)
 	var ev Event
 	if i < len(x.prefix) {
 		ev = x.prefix[i]
 	} else {
-		ev = Event{kind: 0}
+		ev = Event{Kind: 0}
 		if r := x.feasible(c); r != "unsat" {
-			ev.alts = append(ev.alts, 0)
+			ev.Alts = append(ev.Alts, 0)
 		}
 		if r := x.feasible(x.b.Not(c)); r != "unsat" {
-			ev.alts = append(ev.alts, 1)
+			ev.Alts = append(ev.Alts, 1)
 		}
-		if len(ev.alts) == 0 {
+		if len(ev.Alts) == 0 {
 			panic(pathEnd{"infeasible at branch"})
 		}
-		ev.choice = ev.alts[0]
 	}
 	cc := c
-	if ev.choice == 1 {
+	if ev.Alts[ev.Choice] == 1 {
 		cc = x.b.Not(c)
 	}
 	x.pushAssert(cc)
 	x.events = append(x.events, ev)
-	return ev.choice == 0
+	return ev.Alts[ev.Choice] == 0
 }
 
-func (x *Explorer) concretize(t *Term, sg bool, what string, limit int) int {
+// concretize forks over the feasible values of t in [lo, hi]; a value outside is reported through over().
+func (x *Explorer) concretize(t *Term, sg bool, what string, lo, hi int64, over func(cond *Term)) int64 {
 	i := len(x.events)
 	var ev Event
+	w := t.sort.W
 	if i < len(x.prefix) {
 		ev = x.prefix[i]
 	} else {
-		ev = Event{kind: 2}
-		// enumerate feasible values 0..limit via blocking
+		ev = Event{Kind: 2}
+		var inRange *Term
+		if sg {
+			inRange = x.b.And(x.b.Bin(OBvSLE, x.b.BVi(lo, w), t), x.b.Bin(OBvSLE, t, x.b.BVi(hi, w)))
+		} else {
+			inRange = x.b.Bin(OBvULE, t, x.b.BVu(uint64(hi), w))
+		}
 		x.s.Push()
-		w := t.sort.W
-		for len(ev.alts) <= 64 {
-			x.s.Assert(x.b.Bin(OBvULE, t, x.b.BVu(uint64(limit), w)))
+		x.s.Assert(inRange)
+		for len(ev.Alts) <= 4096 {
 			r := x.s.Check()
 			if r != "sat" {
 				if r == "unknown" {
-					x.Unknown++
+					x.sh.mu.Lock()
+					x.sh.Unknown++
+					x.sh.mu.Unlock()
 				}
 				break
 			}
 			m := x.s.Model(x.nondet)
-			v := x.b.Eval(t, m, map[int]*big.Int{})
-			ev.alts = append(ev.alts, int(v.Int64()))
-			x.s.Assert(x.b.Not(x.b.Eq(t, x.b.BV(v, w))))
+			v := x.b.Eval(t, m, map[int]evalVal{})
+			if sg {
+				ev.Alts = append(ev.Alts, sext(v.u, w))
+			} else {
+				ev.Alts = append(ev.Alts, int64(v.u))
+			}
+			x.s.Assert(x.b.Not(x.b.Eq(t, x.b.BVu(v.u, w))))
 		}
 		x.s.Pop(1)
-		// can it exceed the limit?
-		if r := x.feasible(x.b.Not(x.b.Bin(OBvULE, t, x.b.BVu(uint64(limit), w)))); r != "unsat" {
-			x.report("alloc", "size/limit", fmt.Sprintf("%s can exceed limit %d", what, limit), x.b.Not(x.b.Bin(OBvULE, t, x.b.BVu(uint64(limit), w))))
+		if over != nil {
+			out := x.b.Not(inRange)
+			if r := x.feasible(out); r != "unsat" {
+				over(out)
+			}
 		}
-		if len(ev.alts) == 0 {
+		if len(ev.Alts) == 0 {
 			panic(pathEnd{"no feasible concrete value for " + what})
 		}
-		sort.Ints(ev.alts)
-		ev.choice = 0
+		sort.Slice(ev.Alts, func(a, b int) bool { return ev.Alts[a] < ev.Alts[b] })
 	}
-	v := ev.alts[ev.choice]
-	x.pushAssert(x.b.Eq(t, x.b.BVu(uint64(v), t.sort.W)))
+	v := ev.Alts[ev.Choice]
+	x.pushAssert(x.b.Eq(t, x.b.BVu(uint64(v), w)))
 	x.events = append(x.events, ev)
 	return v
 }
@@ -155,41 +283,87 @@ func (x *Explorer) assume(c *Term) {
 	i := len(x.events)
 	if i >= len(x.prefix) {
 		if x.feasible(c) == "unsat" {
-			x.Pruned++
+			x.sh.mu.Lock()
+			x.sh.Pruned++
+			x.sh.mu.Unlock()
 			panic(pathEnd{"assume infeasible"})
 		}
 	}
 	x.pushAssert(c)
-	x.events = append(x.events, Event{kind: 1})
+	x.events = append(x.events, Event{Kind: 1, Alts: []int64{0}})
 }
 
-func (x *Explorer) report(kind, where, msg string, cond *Term) {
-	key := kind + "|" + where + "|" + msg
-	// get model of pc ∧ cond
+func (x *Explorer) tapeFrom(m *Model) []TapeEntry {
+	tape := make([]TapeEntry, len(x.nondet))
+	for i, n := range x.nondet {
+		if n.sort.K == SInt {
+			v := m.ints[n.name]
+			s := "0"
+			if v != nil {
+				s = v.String()
+			}
+			tape[i] = TapeEntry{W: 0, Val: s}
+		} else {
+			tape[i] = TapeEntry{W: n.sort.W, Val: fmt.Sprint(m.bv[n.name])}
+		}
+	}
+	return tape
+}
+
+func (x *Explorer) obsUnder(m *Model) []string {
+	cache := map[int]evalVal{}
+	var out []string
+	for _, o := range x.obs {
+		if o.t == nil {
+			out = append(out, o.label)
+			continue
+		}
+		v := x.b.Eval(o.t, m, cache)
+		if o.t.sort.K == SInt {
+			out = append(out, o.label+"="+v.b.String())
+		} else {
+			out = append(out, fmt.Sprintf("%s=%d", o.label, v.u))
+		}
+	}
+	return out
+}
+
+func (x *Explorer) report(kind, where, fn, msg string, cond *Term) {
+	if x.e.inInit {
+		return
+	}
+	v := Violation{Harness: x.name, Kind: kind, Where: where, Msg: msg, Func: fn, KF: append([]string{}, x.kf...)}
+	key := v.key()
+	x.sh.mu.Lock()
+	dup := x.sh.seen[key] || len(x.sh.violations) >= x.sh.maxViol
+	x.sh.mu.Unlock()
+	if dup {
+		return
+	}
 	x.s.Push()
 	x.s.Assert(cond)
 	r := x.s.Check()
-	var m map[string]*big.Int
+	var m *Model
 	if r == "sat" {
 		m = x.s.Model(x.nondet)
 	}
 	x.s.Pop(1)
 	if r != "sat" {
-		return
-	}
-	if x.seenViol[key] {
-		return
-	}
-	x.seenViol[key] = true
-	v := Violation{kind: kind, where: where, msg: msg, model: m}
-	for _, n := range x.nondet {
-		val := m[n.name]
-		if val == nil {
-			val = big.NewInt(0)
+		if r == "unknown" {
+			x.sh.mu.Lock()
+			x.sh.Inconclusive++
+			x.sh.mu.Unlock()
 		}
-		v.tape = append(v.tape, fmt.Sprintf("%s=0x%x", n.name, val))
+		return
 	}
-	x.Violations = append(x.Violations, v)
+	v.Tape = x.tapeFrom(m)
+	v.Obs = x.obsUnder(m)
+	x.sh.mu.Lock()
+	if !x.sh.seen[key] {
+		x.sh.seen[key] = true
+		x.sh.violations = append(x.sh.violations, v)
+	}
+	x.sh.mu.Unlock()
 }
 
 func pos(prog *ssa.Program, fn *ssa.Function, ins ssa.Instruction) string {
@@ -204,22 +378,35 @@ func pos(prog *ssa.Program, fn *ssa.Function, ins ssa.Instruction) string {
 	return name
 }
 
-func (x *Explorer) vassert(c *Term, where string) {
+func (x *Explorer) vassert(c *Term, label string) {
 	x.asserts++
 	if c.IsConst() {
-		if !c.ConstBool() && !x.replaying() {
-			x.report("assert", where, "assertion false on path", x.b.Bool(true))
+		if !c.ConstBool() {
+			if !x.replaying() {
+				x.report("assert", label, "", "assertion false on path", x.b.tt)
+			}
 			panic(pathEnd{"assert failed (concrete)"})
 		}
 		return
 	}
 	if !x.replaying() {
 		nc := x.b.Not(c)
-		if x.feasible(nc) != "unsat" {
-			x.report("assert", where, "assertion can fail", nc)
+		if r := x.feasible(nc); r == "sat" {
+			x.report("assert", label, "", "assertion can fail", nc)
+		} else if r == "unknown" {
+			x.sh.mu.Lock()
+			x.sh.Inconclusive++
+			x.sh.mu.Unlock()
 		}
 	}
 	x.assume(c)
+}
+
+func fnName(fn *ssa.Function) string {
+	if fn == nil {
+		return "?"
+	}
+	return fn.String()
 }
 
 func (x *Explorer) checkPanic(failCond *Term, fn *ssa.Function, ins ssa.Instruction, msg string) {
@@ -230,39 +417,70 @@ func (x *Explorer) checkPanic(failCond *Term, fn *ssa.Function, ins ssa.Instruct
 		return
 	}
 	if !x.replaying() {
-		if x.feasible(failCond) != "unsat" {
-			x.report("panic", pos(x.e.prog, fn, ins), msg, failCond)
+		if r := x.feasible(failCond); r == "sat" {
+			x.report("panic", pos(x.e.prog, fn, ins), x.e.userFunc(), msg, failCond)
+		} else if r == "unknown" {
+			x.sh.mu.Lock()
+			x.sh.Inconclusive++
+			x.sh.mu.Unlock()
 		}
 	}
 	x.assume(x.b.Not(failCond))
 }
 
 func (x *Explorer) goPanic(fn *ssa.Function, ins ssa.Instruction, msg string) {
-	if !x.replaying() {
-		x.report("panic", pos(x.e.prog, fn, ins), msg, x.b.Bool(true))
+	if !x.replaying() || true {
+		x.report("panic", pos(x.e.prog, fn, ins), x.e.userFunc(), msg, x.b.tt)
 	}
 	panic(pathEnd{"go panic: " + msg})
 }
 
 func (x *Explorer) unwindFail(fn *ssa.Function, blk *ssa.BasicBlock) {
-	x.report("unwind", fn.String()+" block "+blk.String(), "loop bound exceeded", x.b.Bool(true))
+	x.report("unwind", fn.String()+" block "+blk.String(), x.e.userFunc(), "loop bound exceeded", x.b.tt)
 	panic(pathEnd{"unwind"})
 }
 
-func (x *Explorer) newNondet(w int) *Term {
-	t := x.b.Var(fmt.Sprintf("n%d_%d", len(x.nondet), w), Sort{SBV, w})
+func (x *Explorer) newNondet(s Sort) *Term {
+	var t *Term
+	if s.K == SInt {
+		t = x.b.Var(fmt.Sprintf("n%d_int", len(x.nondet)), s)
+	} else {
+		t = x.b.Var(fmt.Sprintf("n%d_%d", len(x.nondet), s.W), s)
+	}
 	x.nondet = append(x.nondet, t)
 	return t
 }
 
-// Run explores all paths of harness fn.
-func (x *Explorer) Run(fn *ssa.Function) {
-	x.prefix = nil
+// known marks entry into a known-finding region (fork on cond).
+func (x *Explorer) known(id string, c *Term) bool {
+	var in bool
+	if c.IsConst() {
+		in = c.ConstBool()
+	} else {
+		in = x.branch(c)
+	}
+	if in {
+		x.kf = append(x.kf, id)
+	}
+	return in
+}
+
+// runItem explores the subtree below the given decision prefix.
+func (x *Explorer) runItem(fn *ssa.Function, item []Event) {
+	x.prefix = item
+	x.base = len(item)
+	if x.synced > 0 {
+		x.s.Pop(x.synced)
+		x.synced = 0
+	}
 	for {
-		x.events = nil
+		x.events = x.events[:0]
 		x.nondet = nil
 		x.model = nil
-		x.e.steps0()
+		x.kf = nil
+		x.obs = nil
+		x.e.beginPath()
+		completed := false
 		func() {
 			defer func() {
 				if r := recover(); r != nil {
@@ -270,61 +488,113 @@ func (x *Explorer) Run(fn *ssa.Function) {
 					case pathEnd:
 						_ = v
 					case unsupported:
-						x.report("unsupported", string(v), string(v), x.b.Bool(true))
+						x.sh.mu.Lock()
+						x.sh.unsupported[string(v)]++
+						x.sh.mu.Unlock()
 					default:
 						panic(r)
 					}
 				}
 			}()
 			x.e.call(fn, nil, nil)
-			x.Paths++
+			completed = true
 		}()
-		// backtrack
+		x.e.endPath()
+		x.sh.mu.Lock()
+		if completed {
+			x.sh.Paths++
+			for _, k := range x.kf {
+				x.sh.kfSeen[k]++
+			}
+		}
+		x.sh.Decisions += len(x.events)
+		x.sh.Steps += x.e.steps
+		x.e.steps = 0
+		for _, l := range x.labels {
+			x.sh.covered[l]++
+		}
+		takeSample := false
+		if completed && x.sh.maxSamples > 0 {
+			x.sh.sampleN++
+			if len(x.sh.samples) < x.sh.maxSamples {
+				takeSample = true
+			} else if x.sh.rng.Intn(x.sh.sampleN) < x.sh.maxSamples {
+				takeSample = true
+			}
+		}
+		timeUp := !x.sh.deadline.IsZero() && time.Now().After(x.sh.deadline)
+		if timeUp {
+			x.sh.timedOut = true
+		}
+		full := len(x.sh.violations) >= x.sh.maxViol
+		x.sh.mu.Unlock()
+		x.labels = x.labels[:0]
+		if takeSample {
+			x.sample()
+		}
+		if timeUp || full {
+			x.sh.stop()
+			return
+		}
+		// donate shallow alternatives when other workers are idle
+		if x.sh.hungry() {
+			for j := x.base; j < len(x.events); j++ {
+				ev := x.events[j]
+				if ev.Kind == 1 || ev.Choice+1 >= len(ev.Alts) {
+					continue
+				}
+				var items [][]Event
+				for k := ev.Choice + 1; k < len(ev.Alts); k++ {
+					nev := ev
+					nev.Choice = k
+					items = append(items, append(append([]Event{}, x.events[:j]...), nev))
+				}
+				x.events[j].Alts = ev.Alts[:ev.Choice+1]
+				x.sh.put(items)
+				break
+			}
+		}
+		// backtrack to the deepest event with an untried alternative
 		i := len(x.events) - 1
-		for ; i >= 0; i-- {
+		for ; i >= x.base; i-- {
 			ev := x.events[i]
-			if ev.kind == 1 {
-				continue
-			}
-			idx := -1
-			for k, a := range ev.alts {
-				if ev.kind == 0 && a == ev.choice {
-					idx = k
-				}
-				if ev.kind == 2 && k == ev.choice {
-					idx = k
-				}
-			}
-			if idx+1 < len(ev.alts) {
+			if ev.Kind != 1 && ev.Choice+1 < len(ev.Alts) {
 				nev := ev
-				if ev.kind == 0 {
-					nev.choice = ev.alts[idx+1]
-				} else {
-					nev.choice = idx + 1
-				}
+				nev.Choice = ev.Choice + 1
 				x.prefix = append(append([]Event{}, x.events[:i]...), nev)
 				break
 			}
 		}
-		if i < 0 {
-			x.s.Pop(x.synced)
-			x.synced = 0
+		if i < x.base {
 			return
 		}
 		if x.synced > i {
 			x.s.Pop(x.synced - i)
 			x.synced = i
 		}
-		if x.stopAtFirst && len(x.Violations) > 0 {
-			x.s.Pop(x.synced)
-			x.synced = 0
-			return
-		}
 	}
 }
 
-func (e *Engine) steps0() {}
+func (x *Explorer) sample() {
+	r := x.s.Check()
+	if r != "sat" {
+		return
+	}
+	m := x.s.Model(x.nondet)
+	s := Sample{Tape: x.tapeFrom(m), Obs: x.obsUnder(m), Events: len(x.events)}
+	x.sh.mu.Lock()
+	if len(x.sh.samples) < x.sh.maxSamples {
+		x.sh.samples = append(x.sh.samples, s)
+	} else {
+		x.sh.samples[x.sh.rng.Intn(len(x.sh.samples))] = s
+	}
+	x.sh.mu.Unlock()
+}
 
 func describe(v Violation) string {
-	return fmt.Sprintf("[%s] %s: %s  tape: %s", v.kind, v.where, v.msg, strings.Join(v.tape, " "))
+	var tp []string
+	for _, t := range v.Tape {
+		tp = append(tp, t.Val)
+	}
+	return fmt.Sprintf("[%s] %s: %s kf=%v tape: %s", v.Kind, v.Where, v.Msg, v.KF, strings.Join(tp, " "))
 }
